@@ -1,0 +1,10 @@
+//go:build verif
+
+package query
+
+// Progress accounting of a running query (maps guarded by locks): assumed to
+// leave the pipeline processors' state alone.
+//@ func IncRecordsSent
+//@   assumed
+//@   pure
+//@ end
